@@ -115,6 +115,13 @@ def cases(tier, seed):
                     pairs = [(rng.choice(P), rng.choice(P)) for _ in range(150 if d == 2 else 60)]
                 for i, (x, y) in enumerate(pairs):
                     add(cfg, x, y, routes[i % 3])
+    # algebras DERIVED from another one with dataclasses.replace: the product must follow the derived algebra's own table
+    for cfg in (dict(p=2, derive=dict(signature=[1, -1])), dict(p=3, derive=dict(signature=[1, 1, 0])), dict(p=2, derive=dict(cse=False)),
+                dict(p=1, q=1, derive=dict(signature=[-1, 1])), dict(p=3, derive=dict(signature=[-1, 1, 0], start_index=1))):
+        d = cfg.get('p', 0) + cfg.get('q', 0)
+        P = pat.EXH(2) if d == 2 else pat.RND(3, 40, rng)
+        for i in range(60 if tier == 'quick' else 400):
+            add(cfg, rng.choice(P), rng.choice(P), routes[i % 3])
     return out
 
 
@@ -122,6 +129,8 @@ def run_case(desc, V):
     # with a wrapper the numeric path calls through the shared name space: keep such cases
     # self-contained (history effects are C09's subject)
     alg = get_alg(desc['cfg'], fresh=bool(desc['cfg'].get('wrapper')))
+    if desc['cfg'].get('derive') and 'signature' in desc['cfg']['derive'] and [int(x) for x in alg.signature] != list(desc['cfg']['derive']['signature']):
+        return [Fail('derived-signature', f'derived algebra has signature {list(alg.signature)}')]
     a = mv(alg, V, 'a', desc['ka'])
     b = mv(alg, V, 'b', desc['kb'])
     route = desc.get('route', 'mul')
